@@ -123,7 +123,7 @@ func (r *bridgeRig) startLifecycle() string {
 // waitCopiers waits until both copiers are blocked in their Read (false: Start returned without
 // spawning them, e.g. its select picked the cancelled context, or they did not get there in time).
 func (r *bridgeRig) waitCopiers() bool {
-	deadline := time.Now().Add(2 * time.Second)
+	deadline := time.Now().Add(300 * time.Millisecond)
 	for r.src.blockedReaders() == 0 || r.dst.blockedReaders() == 0 {
 		if st, _ := r.s.State("st"); st == sched.Parked || st == sched.Done {
 			return false
@@ -234,8 +234,19 @@ func (r *bridgeRig) finish() *fw.Trace {
 	r.runOp("Start", func() error { return r.b.Start() })
 	r.runOp("WaitForTarget", func() error { return r.b.WaitForTarget(50 * time.Millisecond) })
 	r.runOp("NotifyTargetReady", func() error { r.b.NotifyTargetReady(); r.b.IsTargetReady(); return nil })
-	r.runOp("Counters", func() error { r.b.AddBytesSent(0); r.b.AddBytesReceived(0); r.b.GetBytesSent(); r.b.GetRateLimiter(); return nil })
-	r.runOp("CrossNode", func() error { r.b.SetCrossNodeConnection(nil); r.b.GetCrossNodeConnection(); r.b.ReleaseCrossNodeConnection(); return nil })
+	r.runOp("Counters", func() error {
+		r.b.AddBytesSent(0)
+		r.b.AddBytesReceived(0)
+		r.b.GetBytesSent()
+		r.b.GetRateLimiter()
+		return nil
+	})
+	r.runOp("CrossNode", func() error {
+		r.b.SetCrossNodeConnection(nil)
+		r.b.GetCrossNodeConnection()
+		r.b.ReleaseCrossNodeConnection()
+		return nil
+	})
 	r.runOp("SetSourceConnection:nil", func() error { r.b.SetSourceConnection(nil); return nil })
 	r.runOp("Accessors", func() error {
 		r.b.GetTunnelID()
